@@ -38,8 +38,13 @@
         peek_claim <allow|deny> <answer>     same legality checks; only anyone_waiting is written
         release <result> aw=<b> tt=<b> c2=<b>   the entry is removed here (before the dg lines the
               release triggers); the three flags are compared with the model's entry
-        release_self <to_transferred|release>   to_transferred: owner:=Transferred, claimed_twice:=false,
-              anyone_waiting:=false (since salsa 451fce7; the dg unblock line of the waiters follows);
+        release_self <to_transferred|release>   to_transferred: owner:=Transferred, claimed_twice:=false;
+              when anyone_waiting is set and the key's transfer chain does NOT resolve to <me>
+              (`!is_owner_of_transferred_query`, evaluated on the model graph): anyone_waiting:=false and
+              the dg unblock line of the waiters follows (since salsa 451fce7, the condition since e06010e);
+              otherwise anyone_waiting is left as it is and no dg line follows (if <me>'s next line is that
+              unblock line all the same, it is applied and answered `answer-mismatch
+              model=no-wake-own-transfer-target`);
               release: marker (the following `release` line removes the entry)
         release_panicking <Panicked|Cancelled> [tok=<0..3|?>]   marker; with `tok=` (raw CancellationToken
               bits of the releasing handle: 1 = cancel requested, 2 = local cancellation disabled) the
@@ -98,12 +103,14 @@
     W3 is the invariant the pre-451fce7 `release_self` violated (stale edge to the re-claiming thread;
     corpus/DG/kf-stale-edge-prefix.ops, recorded deadlock of corpus/C18).  Because a release / transfer /
     hand-back is a sync line followed by the graph line(s) of the same thread, W3 exempts a key from its
-    `sync release` (with waiters) / `sync transfer` / `sync release_self … to_transferred` (with waiters)
-    line until the NEXT dg or sync line of that thread has been applied (`undo_transfer_lock` keeps the
+    `sync release` (with waiters) / `sync transfer` / `sync release_self … to_transferred` (with waiters
+    that are woken) line until the NEXT dg or sync line of that thread has been applied (`undo_transfer_lock` keeps the
     exemption: it is the first of up to three graph lines of a release).  So if the expected graph
     operation does not follow (the old `release_self`), the violation is reported at that next line.
-    `sync release_self … to_transferred` clears `anyone_waiting` (it is followed by
-    `dg 0 unblock_runtimes_blocked_on <key> Completed` when the flag was set).
+    `sync release_self … to_transferred` clears `anyone_waiting` and is followed by
+    `dg 0 unblock_runtimes_blocked_on <key> Completed` when the flag was set and <me> does not own the
+    key's transfer target; when <me> owns it the waiters' edges already point at <me> = the resolved owner
+    (theorem `c18_handback_own_target_keeps_edges_accurate`), the flag stays and nobody is woken.
 -/
 import SalsaVerif.Drive.Common
 import SalsaVerif.Model.SyncDG
@@ -117,8 +124,11 @@ structure DState where
   /-- (key, thread): the sync-table half of a release / transfer / hand-back of `key` by `thread` has
       been replayed, its graph half is the thread's next dg line; W3 is not evaluated on `key` meanwhile -/
   pending : List (Nat × Nat) := []
+  /-- (key, thread): `thread` handed the re-claimed `key` back while owning its transfer target — its next
+      dg line must NOT be the wake-up `unblock_runtimes_blocked_on key` (salsa e06010e) -/
+  quiet : List (Nat × Nat) := []
 
-def dinit : DState := { st := init, keys := #[], pending := [] }
+def dinit : DState := { st := init, keys := #[], pending := [], quiet := [] }
 
 def nat? (s : String) : Option Nat := if s.isEmpty then none else s.toNat?
 
@@ -319,6 +329,8 @@ def setSync (d : DState) (k : Nat) (v : Option SyncState) : DState :=
 
 def addPending (d : DState) (k me : Nat) : DState := { d with pending := (k, me) :: d.pending }
 
+def addQuiet (d : DState) (k me : Nat) : DState := { d with quiet := (k, me) :: d.quiet }
+
 def flag? (pre s : String) : Option Bool :=
   if s = pre ++ "0" then some false else if s = pre ++ "1" then some true else none
 
@@ -371,8 +383,17 @@ def applySync (d : DState) (op : String) (me k : Nat) (args : List String) : Out
       | some st =>
         if what = "to_transferred" then
           if st.claimedTwice then
-            let d' := setSync d k (some { st with claimedTwice := false, owner := .transferred, anyoneWaiting := false })
-            some (.sync (if st.anyoneWaiting then addPending d' k me else d') none)
+            let st1 : SyncState := { st with claimedTwice := false, owner := .transferred }
+            let d1 := setSync d k (some st1)
+            if st.anyoneWaiting then
+              -- `is_owner_of_transferred_query(key, me)` (its graph-lock hold has no trace line of its own;
+              -- nothing but `me` can change the chain of a key `me` has re-claimed, so it is evaluated here)
+              match isOwnerOfTransferredQuery (touch d1.st me) k me with
+              | none => some (.notEnabled "sync:release_self-transfer-chain-does-not-terminate")
+              | some true => some (.sync (addQuiet d1 k me) none)
+              | some false =>
+                some (.sync (addPending (setSync d1 k (some { st1 with anyoneWaiting := false })) k me) none)
+            else some (.sync d1 none)
           else some (.notEnabled "sync:to_transferred-needs-claimed-twice")
         else if what = "release" then
           if st.claimedTwice then some (.sync d (some "to_transferred")) else some (.sync d none)
@@ -471,7 +492,19 @@ def splitDigest (toks : List String) : List String × Option String :=
     this very line — or the marker was wrong and W3 must see the key again).  `undo_transfer_lock` is
     the first of up to three graph lines of a release and keeps the marker. -/
 def expire (d : DState) (me : Nat) (keep : Bool) : DState :=
-  if keep then d else { d with pending := d.pending.filter (fun p => p.2 != me) }
+  if keep then d
+  else { d with pending := d.pending.filter (fun p => p.2 != me), quiet := d.quiet.filter (fun p => p.2 != me) }
+
+/-- Is this dg line the wake-up of the waiters of a key that `me` has just handed back while owning its
+    transfer target (the pre-e06010e behaviour)? -/
+def unexpectedWake (d : DState) (op : String) (me : Nat) (args : List String) : Bool :=
+  op == "unblock_runtimes_blocked_on" &&
+    match args with
+    | k :: _ =>
+      match key? d k with
+      | some (_, ki) => d.quiet.contains (ki, me)
+      | none => false
+    | [] => false
 
 def handle (d : DState) (line : String) : Out × Option String :=
   match SalsaVerif.Drive.words line with
@@ -483,10 +516,16 @@ def handle (d : DState) (line : String) : Out × Option String :=
       | some dep, some me =>
         if dep > 0 then (.skip, none)
         else
+          let noWake := unexpectedWake d op me args
           let d := expire d me (op == "undo_transfer_lock")
           match applyDgCheck d op me args with
           | some o => (o, want)
-          | none => (applyDg d op args, want)
+          | none =>
+            match applyDg d op args with
+            | .graph d' none extra =>
+              if noWake then (.graph d' (some "MISMATCH:no-wake-own-transfer-target") extra, want)
+              else (.graph d' none extra, want)
+            | o => (o, want)
       | _, _ => (.bad, none)
     | _ => (.bad, none)
   | "sync" :: op :: me :: k :: args =>
